@@ -112,6 +112,20 @@ def run_case(ck, paths, aname, L, k, nt, idx):
             if pr is None or pr["ok"] != pr["callers"] or not pr["same"] or any(row != s for row in pr["rows"]):
                 ck.violation("gaps-in-identical:concurrent-callers", "%d threads calling kalign() at the same time on %d identical copies: %s" % (
                     pr["callers"] if pr else -1, k, "calls failed" if pr and pr["ok"] != pr["callers"] else "results differ between callers or contain gaps"), c3)
+    if evaluated and L * k <= 30000 and idx % 4 == 1:
+        # incremental use of one msa object: align k copies, read more copies of the same string into the aligned object, align again
+        f2 = ck.tmp(".fa")
+        k2 = rng.randint(1, 4)
+        common.write_bytes(f2, fmt.write_fasta([("d%d" % i, s) for i in range(k2)]))
+        r3, l3 = common.kvdrv(paths, ["read 0 %s" % f, "run 0 %d 5 -1 -1 -1" % nt, "read 0 %s" % f2, "run 0 %d 5 -1 -1 -1" % nt, "dump 0", "free 0"], scratch=ck.scratch, timeout=900, cpu=600)
+        c4 = dict(ctx, incremental=True, added_copies=k2)
+        ck.count("cases_with_incremental_realignment")
+        if not ck.proc_violations(r3, c4, allow_rcs=(0,)):
+            d3 = next((x for x in l3 if x.get("op") == "dump"), None)
+            runs3 = [x for x in l3 if x.get("op") == "run"]
+            if d3 is None or len(runs3) != 2 or runs3[1]["rc"] != 0 or len(d3["rows"]) != k + k2 or any(x["seq"] != s for x in d3["rows"]):
+                ck.violation("gaps-in-identical:after-adding-copies-to-an-aligned-msa", "align %d copies, read %d more copies into the same msa, align again: %s" % (
+                    k, k2, "second run failed" if (len(runs3) == 2 and runs3[1]["rc"] != 0) else "rows differ from the input string"), c4)
     if evaluated:
         ck.evaluated((aname, L, k, hash(s) & 0xffffff))
         ck.count("cases_%s" % aname)
